@@ -1,12 +1,18 @@
 package main
 
 import (
+	"crypto/sha256"
 	"errors"
 	"fmt"
+	"os"
+	"path/filepath"
+	"sort"
 	"sync"
 
 	"github.com/btcsuite/btcd/database"
 	"github.com/btcsuite/btcd/database/ffldb"
+	"github.com/syndtr/goleveldb/leveldb"
+	"github.com/syndtr/goleveldb/leveldb/opt"
 )
 
 // fsim wraps every block file ffldb opens (through the openFileFunc /
@@ -23,17 +29,18 @@ const (
 	evTrunc
 	evClose
 	evDelete
-	evMark // harness marker: leveldb now durably holds transactions <= N
+	evMark // OBSERVED change of the leveldb directory: N = running number of the observed metadata state
+	evStep // end of a harness step: N = committed steps so far, Off = 1 if the step promised durability (flush / close)
 )
 
-var evKindNames = []string{"OpenWrite", "OpenRead", "WriteAt", "ReadAt", "Sync", "Truncate", "Close", "Delete", "LDB"}
+var evKindNames = []string{"OpenWrite", "OpenRead", "WriteAt", "ReadAt", "Sync", "Truncate", "Close", "Delete", "LDB#", "StepEnd"}
 
 type fsEvent struct {
 	Kind int
 	File uint32
 	Off  int64
 	Data []byte
-	N    int // evMark: number of committed transactions durable in leveldb; evTrunc: size
+	N    int // evMark: number of the observed metadata state; evStep: committed steps; evTrunc: size
 }
 
 func (e fsEvent) String() string {
@@ -43,7 +50,12 @@ func (e fsEvent) String() string {
 	case evTrunc:
 		return fmt.Sprintf("Truncate(f%d,%d)", e.File, e.N)
 	case evMark:
-		return fmt.Sprintf("LDB(%d)", e.N)
+		return fmt.Sprintf("LDB#%d", e.N)
+	case evStep:
+		if e.Off == 1 {
+			return fmt.Sprintf("StepEnd(%d,flushed)", e.N)
+		}
+		return fmt.Sprintf("StepEnd(%d)", e.N)
 	}
 	return fmt.Sprintf("%s(f%d)", evKindNames[e.Kind], e.File)
 }
@@ -67,6 +79,16 @@ type fsim struct {
 	fired  int      // how many faults fired
 	after  int      // armed calls seen after f1 fired
 	what   []string // description of the fired faults
+
+	// observation of the leveldb ("metadata") directory of the database under
+	// test, active while record is set (see observeLocked)
+	metaDir  string         // <db dir>/metadata
+	lastSig  string         // physical signature (names, sizes, mtimes) at the last look
+	lastHash [32]byte       // hash of the logical leveldb content of the newest kept state
+	nStates  int            // number of observed logical states so far
+	snaps    map[int]string // state number -> directory holding a verified copy
+	obsErr   string         // harness problem while copying / verifying (=> BROKEN, never a verdict)
+	nLooks   int
 
 	curStep     int
 	firedStep   int // step in which the first fault fired
@@ -113,12 +135,169 @@ func (s *fsim) install(db database.DB) {
 func (s *fsim) rec(e fsEvent) {
 	s.mu.Lock()
 	if s.record {
+		// a leveldb commit that happened since the previous event is placed
+		// BEFORE the current event
+		s.observeLocked()
 		s.log = append(s.log, e)
 	}
 	s.mu.Unlock()
 }
 
-func (s *fsim) mark(n int) { s.rec(fsEvent{Kind: evMark, N: n}) }
+// stepEnd is called by the driver when a harness step (setup, transaction,
+// reopen, close) has returned: n = committed steps so far, flushed = the step
+// promised durability of everything committed so far.
+func (s *fsim) stepEnd(n int, flushed bool) {
+	off := int64(0)
+	if flushed {
+		off = 1
+	}
+	s.rec(fsEvent{Kind: evStep, N: n, Off: off})
+}
+
+// observe looks at the leveldb directory now (used right after Create).
+func (s *fsim) observe() {
+	s.mu.Lock()
+	if s.record {
+		s.observeLocked()
+	}
+	s.mu.Unlock()
+}
+
+// dirSig is the physical signature of a directory: names, sizes, mtimes.
+func dirSig(dir string) string {
+	ents, err := os.ReadDir(dir)
+	if err != nil {
+		return "unreadable: " + err.Error()
+	}
+	var parts []string
+	for _, e := range ents {
+		if e.IsDir() || e.Name() == "LOCK" || e.Name() == "LOG" || e.Name() == "LOG.old" {
+			continue
+		}
+		fi, err := e.Info()
+		if err != nil {
+			parts = append(parts, e.Name()+":gone")
+			continue
+		}
+		parts = append(parts, fmt.Sprintf("%s:%d:%d", e.Name(), fi.Size(), fi.ModTime().UnixNano()))
+	}
+	sort.Strings(parts)
+	return fmt.Sprint(parts)
+}
+
+// copyMeta copies the leveldb files (not LOCK / LOG).
+func copyMeta(src, dst string) error {
+	if err := os.MkdirAll(dst, 0o700); err != nil {
+		return err
+	}
+	ents, err := os.ReadDir(src)
+	if err != nil {
+		return err
+	}
+	for _, e := range ents {
+		if e.IsDir() || e.Name() == "LOCK" || e.Name() == "LOG" || e.Name() == "LOG.old" {
+			continue
+		}
+		b, err := os.ReadFile(filepath.Join(src, e.Name()))
+		if err != nil {
+			return err
+		}
+		if err := os.WriteFile(filepath.Join(dst, e.Name()), b, 0o600); err != nil {
+			return err
+		}
+	}
+	return nil
+}
+
+// logicalHash opens a (scratch copy of a) leveldb directory with goleveldb itself
+// and hashes every key/value pair: proof that the copy is a consistent, openable
+// leveldb state, and the identity of its logical content.
+func logicalHash(dir string) ([32]byte, int, error) {
+	var out [32]byte
+	tmp := newDir("ldbchk")
+	defer os.RemoveAll(tmp)
+	if err := copyMeta(dir, tmp); err != nil {
+		return out, 0, err
+	}
+	db, err := leveldb.OpenFile(tmp, &opt.Options{ErrorIfMissing: true, ReadOnly: true, Strict: opt.DefaultStrict})
+	if err != nil {
+		return out, 0, err
+	}
+	defer db.Close()
+	h := sha256.New()
+	it := db.NewIterator(nil, nil)
+	n := 0
+	for it.Next() {
+		fmt.Fprintf(h, "%d:%d:", len(it.Key()), len(it.Value()))
+		h.Write(it.Key())
+		h.Write(it.Value())
+		n++
+	}
+	it.Release()
+	if err := it.Error(); err != nil {
+		return out, 0, err
+	}
+	copy(out[:], h.Sum(nil))
+	return out, n, nil
+}
+
+// observeLocked compares the leveldb directory with the last look.  If it
+// changed physically, a point-in-time copy is taken (retried until the signature
+// is the same before and after copying: goleveldb's background compaction may
+// still be renaming / deleting files), verified by opening it with goleveldb, and
+// -- if the LOGICAL content differs from the newest kept state -- kept as
+// metadata state #k with an LDB#k marker appended to the log.  Physical-only
+// changes (compaction, journal rotation, recovery at open) leave no marker, so
+// the log is a deterministic function of the history.
+func (s *fsim) observeLocked() {
+	if s.metaDir == "" || s.obsErr != "" {
+		return
+	}
+	s.nLooks++
+	sig := dirSig(s.metaDir)
+	if sig == s.lastSig {
+		return
+	}
+	var lastErr error
+	for attempt := 0; attempt < 200; attempt++ {
+		before := dirSig(s.metaDir)
+		dst := newDir("ldbstate")
+		err := copyMeta(s.metaDir, dst)
+		after := dirSig(s.metaDir)
+		if err != nil || before != after {
+			os.RemoveAll(dst)
+			lastErr = fmt.Errorf("directory changed while copying (%v)", err)
+			continue
+		}
+		hash, _, err := logicalHash(dst)
+		if err != nil {
+			os.RemoveAll(dst)
+			lastErr = err
+			continue
+		}
+		s.lastSig = after
+		if s.nStates > 0 && hash == s.lastHash {
+			os.RemoveAll(dst) // physical change only
+			return
+		}
+		if s.snaps == nil {
+			s.snaps = map[int]string{}
+		}
+		s.snaps[s.nStates] = dst
+		s.lastHash = hash
+		s.log = append(s.log, fsEvent{Kind: evMark, N: s.nStates})
+		s.nStates++
+		return
+	}
+	s.obsErr = fmt.Sprintf("cannot take a consistent, openable copy of %s: %v", s.metaDir, lastErr)
+}
+
+func (s *fsim) cleanupSnaps() {
+	for _, d := range s.snaps {
+		os.RemoveAll(d)
+	}
+	s.snaps = nil
+}
 
 // hit counts one faultable call and returns the fault kind to apply ("" = none).
 func (s *fsim) hit(kind int, file uint32) string {
